@@ -145,25 +145,35 @@ Module BrokerP.
     (lk s = LCloseFin -> conn s = true /\ rc s = RDone) /\
     (lk s = LDial -> conn s = false) /\
     (rc s = RDone -> done s = true /\ closed (resp s) = true /\ len (resp s) = 0) /\
-    (conn s = true -> rc s <> RNone).
+    (conn s = true -> lk s <> LAuth -> rc s <> RNone) /\
+    (* the SASL step: connection dialled, channels not created, no receiver *)
+    (lk s = LAuth -> conn s = true /\ rc s = RNone) /\
+    (* responses / done exist exactly while the connection is open and authenticated, and then a receiver exists *)
+    (made s = true <-> (conn s = true /\ lk s <> LAuth)) /\
+    (conn s = false -> rc s = RNone).
 
   Lemma inv_init c : Inv (init c).
   Proof. unfold Inv, init; cbn. repeat split; intros; try congruence; try discriminate; intuition congruence. Qed.
 
   Lemma inv_step c s a s' : Inv s -> step c s a = Some s' -> Inv s'.
   Proof.
-    intros (Hp & Hopen & Hsend & Hclose & Hrc & Hfin & Hdial & Hdone & Hrn) H.
-    destruct a; scbn H; step_cases H; unfold Inv, upd in *; cbn in *; bool_hyps.
+    intros (Hp & Hopen & Hsend & Hclose & Hrc & Hfin & Hdial & Hdone & Hrn & Hauth & Hmade & Hnc) H.
+    destruct a; scbn H; step_cases H; unfold Inv, upd, set_made in *; cbn in *; bool_hyps.
     all: repeat match goal with
          | H : ?x = ?x -> _ |- _ => specialize (H eq_refl)
          | H : ?x = ?x \/ _ -> _ |- _ => specialize (H (or_introl eq_refl))
          | H : _ \/ ?x = ?x -> _ |- _ => specialize (H (or_intror eq_refl))
          end.
-    all: repeat split; intros; subst; try congruence; try discriminate; try (intuition congruence).
-    all: try (rewrite Hp; cbn).
-    all: try (destruct Hopen as (-> & ? & ?); auto; fail).
-    all: try (intuition (try congruence; try lia); fail).
-    all: try (destruct Hclose as [Hcn _]; specialize (Hrn Hcn); destruct (rc s); intuition congruence).
+    all: rewrite ?Hp; cbn.
+    all: destruct (conn s) eqn:Ecn; destruct (lk s) eqn:Elk; destruct (rc s) eqn:Erc; try discriminate;
+         repeat match goal with
+         | H : ?x = ?x -> _ |- _ => specialize (H eq_refl)
+         | H : ?x = ?x \/ _ -> _ |- _ => specialize (H (or_introl eq_refl))
+         | H : _ \/ ?x = ?x -> _ |- _ => specialize (H (or_intror eq_refl))
+         | H : ?x <> ?y -> _ |- _ => assert (x <> y) as Hneq by discriminate; specialize (H Hneq); clear Hneq
+         end.
+    all: try (intuition (try congruence; try discriminate); fail).
+    all: try (intuition (try congruence; try discriminate; try lia); fail).
   Qed.
 
   Lemma reach_inv c s : Reach (step c) (init c) s -> Inv s.
@@ -178,6 +188,33 @@ Module BrokerP.
   Proof.
     intros c s s' Hc H. cbn in H. step_cases H; try congruence. cbn. auto.
   Qed.
+
+  (* b.done / b.responses exist exactly while the connection is open and past its SASL step; whenever they exist a
+     receiver goroutine exists that closes done once responses is closed and drained (or has done so); a Close that is
+     waiting on done therefore waits on a channel that exists.  Open whose SASL step fails leaves the broker exactly
+     as a failed dial does: no connection, no channels, no receiver — Close answers ErrNotConnected *)
+  Theorem broker_done_has_receiver : forall c l s, run (step c) (init c) l = Some s ->
+    (made s = true <-> (conn s = true /\ lk s <> LAuth)) /\
+    (made s = true -> rc s <> RNone) /\
+    (lk s = LClose -> made s = true /\ rc s <> RNone) /\
+    (lk s = LAuth -> conn s = true /\ made s = false /\ rc s = RNone) /\
+    (conn s = false -> made s = false /\ rc s = RNone).
+  Proof.
+    intros c l s H. assert (I : Inv s) by (apply (reach_inv c s); now exists l).
+    destruct I as (Hp & Hopen & Hsend & Hclose & Hrc & Hfin & Hdial & Hdone & Hrn & Hauth & Hmade & Hnc).
+    split; [exact Hmade|].
+    split. { intro M. apply Hmade in M. destruct M as [A B]. apply Hrn; auto. }
+    split. { intro E. destruct (Hclose E) as [A _]. split.
+             - apply Hmade. split; [auto | rewrite E; discriminate].
+             - apply Hrn; [auto | rewrite E; discriminate]. }
+    split. { intro E. destruct (Hauth E) as [A B]. split; [auto|]. split; [|auto].
+             destruct Hmade as [Hm1 _]. destruct (made s) eqn:M; auto. destruct (Hm1 eq_refl) as [_ X]. congruence. }
+    intro E. split; [|auto]. destruct Hmade as [Hm1 _]. destruct (made s) eqn:M; auto. destruct (Hm1 eq_refl) as [X _]. congruence.
+  Qed.
+
+  Theorem broker_auth_fail_not_connected : forall c s s', lk s = LAuth -> step c s AAuthFail = Some s' ->
+    conn s' = false /\ lk s' = LFree /\ made s' = made s /\ rc s' = rc s.
+  Proof. intros c s s' E H. cbn in H. rewrite E in H. injection H as <-. cbn. auto. Qed.
 
   (* observable behaviour *)
   Definition R (s : st) (q : os) : Prop :=
@@ -237,10 +274,10 @@ Module BrokerP.
 
   Lemma never_stuck c s : ph s -> stuck (step c) s -> False.
   Proof.
-    intros [(Hp & Hopen & Hsend & Hclose & Hrc & Hfin & Hdial & Hdone & Hrn) [Hc|Hc]] Hs.
+    intros [(Hp & Hopen & Hsend & Hclose & Hrc & Hfin & Hdial & Hdone & Hrn & Hauth & Hmade & Hnc) [Hc|Hc]] Hs.
     - destruct (Hclose Hc) as [Hconn Hcl].
       destruct (rc s) eqn:Er.
-      + exfalso. now apply (Hrn Hconn).
+      + exfalso. apply (Hrn Hconn); [rewrite Hc; discriminate | reflexivity].
       + destruct (len (resp s)) eqn:El.
         * specialize (Hs ARExit). cbn in Hs. rewrite Er, Hcl, El in Hs. cbn in Hs. discriminate.
         * specialize (Hs ARTake). cbn in Hs. rewrite Er, El in Hs. discriminate.
